@@ -207,6 +207,7 @@ func runConc(c *ConcCase) (*concResult, error) {
 	}
 	close(start)
 	wg.Wait()
+	e.releaseAllQuiet() // (concurrent programs do not keep guests parked across operations)
 	for _, o := range tail {
 		do(idx, -2, o)
 		idx++
@@ -752,6 +753,30 @@ func quiescence(hist []HOp, counts []attemptCounts) (string, bool) {
 	return "", false
 }
 
+// otherCloserInFlight: does another close that can reach the instance of h overlap h? Such a
+// close may have set the closed word and not yet unlinked (in-flight closes are judged as two
+// steps), which explains a closed-but-registered observation made by h.
+func otherCloserInFlight(hist []HOp, h HOp) bool {
+	for _, k := range hist {
+		if k.I == h.I || !(k.Call < h.Ret && h.Call < k.Ret) {
+			continue
+		}
+		switch k.Op.K {
+		case kRtClose, kRtCloseC:
+			return true
+		case kClose, kCloseC, kCallCtx:
+			if k.Target == h.Target {
+				return true
+			}
+		case kInst:
+			if sc, _ := selfClosing(k); sc && k.I == h.Target {
+				return true
+			}
+		}
+	}
+	return false
+}
+
 // judge applies all oracles to a recorded history. kind: "" held, else a class name.
 func judge(hist []HOp, counts []attemptCounts) (kind, msg string) {
 	for _, h := range hist {
@@ -760,6 +785,14 @@ func judge(hist []HOp, counts []attemptCounts) (kind, msg string) {
 		}
 		if (h.Op.K == kLookup && h.Res.Inst == -2) || h.Target == -2 {
 			return "unknown-module", fmt.Sprintf("an operation returned or used a module that no instantiation returned: %s", h)
+		}
+		if h.Op.K == kCallCtx {
+			if !h.Res.Closed {
+				return "context-close", fmt.Sprintf("the context of a running call ended but the module was not closed within %v: %s", closedWait, h)
+			}
+			if h.Res.Reg && !otherCloserInFlight(hist, h) {
+				return "context-close", fmt.Sprintf("IsClosed() of the instance was observed true, yet Runtime.Module(name) still returned it %v later (guest still parked in its host function): %s", unlinkRetry, h)
+			}
 		}
 		switch h.Op.K {
 		case kClose, kCloseC, kRtClose, kRtCloseC:
